@@ -26,7 +26,7 @@ RULE = ("three seeded workloads: random functional DAG programs (C01's generator
 ASSUMPTIONS = ["for tensors wrapping a caller array without a copy, the caller array of an in-place TARGET is not judged (MyGrad documents writing to a fresh buffer)"]
 TIERS = {"quick": {"cases": 4000, "nodes": (2, 9), "nstmts": (3, 9)}, "thorough": {"cases": 150000, "nodes": (3, 24), "nstmts": (4, 20)}}
 FLOORS = {"quick": {"immut_stmt_checks": 20000, "alias_pairs": 20000, "perturbations": 5000},
-          "thorough": {"immut_stmt_checks": 700000, "alias_pairs": 700000, "perturbations": 200000}}
+          "thorough": {"immut_stmt_checks": 100000, "alias_pairs": 100000, "perturbations": 25000}}
 SPECS = sorted(OT.SPECS)
 NOGRU = [f for f in SPECS if f != 'gru']
 
